@@ -34,7 +34,7 @@ from lib import vk
 
 PKG = "cmd/zoekt-sourcegraph-indexserver"
 FILES = ["sys_zoekt_test.go"]
-NWARM = 7          # warm starts defined in ZoektSeq.tla (Warm)
+NWARM = 9          # warm starts defined in ZoektSeq.tla (Warm)
 PROCS = 8
 
 
@@ -158,12 +158,14 @@ def scripts_of(res, repos, origin):
 
 
 # ---------------------------------------------------------------- replay on the real code
-# measured seconds per operation on a busy machine (the budget is spent in these units, not in wall time)
-COST = {"index": 0.3, "crash": 0.3, "merge": 1.5, "vacuum": 1.2, "cleanup": 0.05}
+# seconds per operation measured with 8 driver processes on a busy 16-core machine (merge and vacuum start
+# zoekt-merge-index, whose start-up alone takes 1-2 s there; every index run allocates 64 MB of tables).
+# The budget is spent in these units, not in wall time.
+COST = {"index": 2.0, "crash": 1.0, "merge": 4.0, "vacuum": 7.0, "cleanup": 0.1}
 
 
 def cost(o):
-    return COST.get(o["op"], 0.03)
+    return COST.get(o["op"], 0.05)
 
 
 class Tree:
@@ -241,17 +243,22 @@ def choose(rng, must, pool, pred, budget):
     return chosen, t, len(covered)
 
 
-def partition(scripts, procs, depth=3):
-    """scripts grouped by their first `depth` operations, groups spread over the processes."""
-    groups = {}
-    for i, s in enumerate(scripts):
-        groups.setdefault((s["repos"],) + tuple(opkey(o) for o in s["ops"][:depth]), []).append(i)
-    parts = [[] for _ in range(procs)]
-    load = [0] * procs
-    for key in sorted(groups, key=lambda k: (-len(groups[k]), k)):
-        p = load.index(min(load))
-        parts[p] += groups[key]
-        load[p] += len(groups[key])
+def partition(scripts, procs):
+    """the scripts in tree order cut into `procs` contiguous parts of about equal cost (neighbours share
+    the longest prefixes, so only the histories at the cuts are executed twice)."""
+    order = sorted(range(len(scripts)), key=lambda i: (scripts[i]["repos"], [opkey(o) for o in scripts[i]["ops"]]))
+    t = Tree()
+    weights = [t.add(scripts[i]["repos"], scripts[i]["ops"])[1] + 0.01 for i in order]
+    total = sum(weights)
+    parts, cur, acc = [], [], 0.0
+    for i, w in zip(order, weights):
+        cur.append(i)
+        acc += w
+        if acc >= total * (len(parts) + 1) / procs and len(parts) < procs - 1:
+            parts.append(cur)
+            cur = []
+    if cur:
+        parts.append(cur)
     return [sorted(p) for p in parts if p]
 
 
@@ -322,6 +329,16 @@ def run_stage(ctx):
 
 
 def body(ctx, rng, bg, th):
+    if ctx.replay:
+        # bin/check SYS --replay replays/SYS_<seed>_<n>.json: only that history, judged by the trace spec
+        sc = json.load(open(ctx.replay))["replay"]["script"]
+        th.join()
+        if "err" in bg:
+            raise bg["err"]
+        chosen = [{"repos": sc["repos"], "ops": sc["ops"], "preds": [], "n": 0, "origin": "replay"}]
+        events = replay(ctx, bg["bin"], bg["merge"], chosen, "r", 1500)
+        return judge(ctx, rng, chosen, events, {}, {"tlc_scripts": 0, "random_walks": 0, "tlc_distinct_states": 0,
+                                                    "transition_classes": 0})
     starts = list(range(1, NWARM + 1))
     # ---- M + script generation (one run: the invariants are checked on every state explored)
     depth = ctx.pick(3, 5)
@@ -368,12 +385,12 @@ def body(ctx, rng, bg, th):
     real = ("index", "merge", "vacuum", "cleanup")
     first = [s for s in bfs if s["n"] == 1 and s["ops"][-1]["op"] in real]
     rest = [s for s in bfs if s["n"] > 1 and s["ops"][-1]["op"] in real]
-    budget = ctx.pick(300, 3600)
+    budget = ctx.pick(40, 600) * PROCS
     chosen, tree, classes = choose(rng, first + sim, rest, pred, budget + sum(cost(o) for s in sim for o in s["ops"]))
     ctx.log("executing %d scripts (%d first steps after a warm start, %d random walks, %d selected of %d others): "
-            "%d operations, %d classes of transitions, estimated %.0f s of work for %d processes" % (
+            "%d operations, %d classes of transitions, estimated %.0f s in %d processes on a busy machine" % (
                 len(chosen), len(first), len(sim), len(chosen) - len(first) - len(sim), len(rest), tree.nodes, classes,
-                tree.cost, PROCS))
+                tree.cost / PROCS, PROCS))
 
     th.join()
     if "err" in bg:
